@@ -476,6 +476,8 @@ func init() {
 		c13gSuite(r, rng, tier)
 		// what the hook BODIES do: SetColumn / Changed / re-entrant operations / faults at every position (c13_bodies.go)
 		c13bSuite(r, rng, tier)
+		// custom JOIN MODELS (SetupJoinTable) as affected records of many2many saves (c13_r6.go)
+		c13r6Suite(r, rng, tier)
 	})
 	replayers["C13/hooks"] = func(r *Result, input json.RawMessage) {
 		var c c13Case
